@@ -449,12 +449,12 @@ def _run(cmd, cwd, timeout=300, env=None):
 
 
 CONFIGS = [   # (label, header dir, std, extra flags, driver)
-    ("c++14", "t", "c++14", ["-fsyntax-only", "-w"], "full"),
-    ("c++11", "t", "c++11", ["-fsyntax-only", "-w"], "full"),
-    ("c++17-skip-checks", "t", "c++17", ["-fsyntax-only", "-w", "-DEMBOSS_SKIP_CHECKS", "-DEMBOSS_NO_OPTIMIZATIONS"], "full"),
-    ("c++11-pedantic", "t", "c++11", ["-fsyntax-only", "-w", "-pedantic-errors"], "full"),
-    ("c++14-no-enum-traits", "nt", "c++14", ["-fsyntax-only", "-w"], "notraits"),
-    ("c++14-constants-run", "t", "c++14", ["-O0", "-w"], "const"),
+    ("c++14", "t", "c++14", ["-fsyntax-only"], "full"),
+    ("c++11", "t", "c++11", ["-fsyntax-only"], "full"),
+    ("c++17-skip-checks", "t", "c++17", ["-fsyntax-only", "-DEMBOSS_SKIP_CHECKS", "-DEMBOSS_NO_OPTIMIZATIONS"], "full"),
+    ("c++11-pedantic", "t", "c++11", ["-fsyntax-only", "-pedantic-errors"], "full"),
+    ("c++14-no-enum-traits", "nt", "c++14", ["-fsyntax-only"], "notraits"),
+    ("c++14-constants-run", "t", "c++14", ["-O0"], "const"),
 ]
 
 
@@ -495,7 +495,9 @@ def build_module(job):
         rc, log = _run(cmd, d)
         if drv == "const" and rc != 0 and any(r[0] != 0 for r in out["gxx"].values()):
             continue      # the header is already known to be rejected; the constants program adds nothing
-        out["gxx"][label] = (rc, log[:8000])
+        if rc != 0:   # keep the diagnostics that matter: error lines first, then the head of the log
+            log = "\n".join(errors_of(log)[:40]) + "\n----\n" + log[:4000]
+        out["gxx"][label] = (rc, log[:12000])
         out["times"][label] = time.time() - t0
         if rc == 0 and "-fsyntax-only" not in flags:
             rc2, o = _run([exe], d, timeout=60)
@@ -731,7 +733,13 @@ BAD_FEATURES = ["enum-case-collision", "virtual-view-name-collision", "validator
 
 def generate(ctx, n_random, reserved, macros):
     mods = []
-    for feat in BAD_FEATURES:
+    # every class has a minimal repro in corpus/C07; the generator must also place each of them by itself:
+    # all of them in the thorough tier, a seed-dependent third of them in the quick tier
+    feats = list(BAD_FEATURES)
+    if not ctx.thorough():
+        ctx.rng.shuffle(feats)
+        feats = feats[:5]
+    for feat in feats:
         for attempt in range(60):
             m = gen_names.NamesModule(ctx.rng, reserved, macros, p_bad=0.0, force=feat)
             if feat in m.features:
